@@ -18,12 +18,13 @@ REFS = {
     'R*3': ['rxroot'],
     '[S1.v,5]': ['list', ['param', 'S1', 'v'], 5],
     "{'k':S2.v}": ['dict', 'k', ['param', 'S2', 'v']],
+    '{S1.v,5}': ['set', ['param', 'S1', 'v'], 5],
     'skipbind(S2.w)': ['skipbind', 'S2', 'w'],                # raises Skip while S2.w is odd, else w + 1000
 }
 SKIP = '<skip>'
 PLAIN_REFS = ['S1.v', 'S1.w', 'S2.v', 'bind(S1.v)', 'bind(S1.v,S2.v)', 'S1.m', 'rx(S1.v)+1', 'R*3', 'skipbind(S2.w)']
 Q_REFS = ['S1.w', 'S2.v', 'bind(S1.v,S2.v)']
-NESTED_REFS = ['[S1.v,5]', "{'k':S2.v}", 'S1.v']
+NESTED_REFS = ['[S1.v,5]', "{'k':S2.v}", 'S1.v', '{S1.v,5}']
 
 
 class C08(Harness):
@@ -141,6 +142,8 @@ class C08(Harness):
             return w['R'] * 3
         if k == 'list':
             return [self.mkref(w, x) if isinstance(x, list) else x for x in d[1:]]
+        if k == 'set':
+            return {self.mkref(w, x) if isinstance(x, list) else x for x in d[1:]}
         if k == 'dict':
             return {d[1]: self.mkref(w, d[2])}
         raise AssertionError(d)
@@ -165,6 +168,8 @@ class C08(Harness):
             return s['R'] * 3
         if k == 'list':
             return [self.evalref(model, x) if isinstance(x, list) else x for x in d[1:]]
+        if k == 'set':
+            return {self.evalref(model, x) if isinstance(x, list) else x for x in d[1:]}
         if k == 'dict':
             return {d[1]: self.evalref(model, d[2])}
 
@@ -178,7 +183,7 @@ class C08(Harness):
             return {(d[1], 'w')}
         if k == 'rxroot':
             return set()
-        if k == 'list':
+        if k in ('list', 'set'):
             out = set()
             for x in d[1:]:
                 if isinstance(x, list):
